@@ -1,7 +1,9 @@
 """C13 - a MultiChain is its chains, sharing identical tasks."""
 import json
 
-from ..core import Prop
+from pathlib import Path
+
+from ..core import Prop, Suite
 from ..suites_hist import Histories, history_oracle
 from ..suites_chain import K, P
 
@@ -62,16 +64,97 @@ class Multi(Histories):
                     {'op': 'value', 'chain': 1, 'pick': 1}, {'op': 'value', 'chain': 2, 'pick': 1},
                     {'op': 'force_multi', 'multi': 0, 'picks': [0], 'recompute': False, 'delete': False},
                     {'op': 'flags', 'chain': 2}, {'op': 'value', 'chain': 2, 'pick': 1}]
-        return [c]
+        # three configs: a shared source, dependants that differ per chain; forcing the shared task through the
+        # MultiChain with delete_data must reach the dependants of every chain
+        cls = [dict(K(0, 'Src'), name='a'), dict(K(1, 'Top', meta_inputs=[{'cls': 0}], params=[P('k')]), name='m')]
+        bases = [{'name': f'c{i}', 'data': {'tasks': ['@M.*'], 'k': i}} for i in (1, 2, 3)]
+        d = dict(classes=cls, files={}, base=bases[0], context=None)
+        d['ops'] = [{'op': 'build', 'base': bases[1]}, {'op': 'multi', 'bases': bases},
+                    {'op': 'value', 'chain': 1, 'pick': 1}, {'op': 'value', 'chain': 2, 'pick': 1},
+                    {'op': 'value', 'chain': 3, 'pick': 1},
+                    {'op': 'force_multi', 'multi': 0, 'picks': [0], 'recompute': False, 'delete': True},
+                    {'op': 'flags', 'chain': 1}, {'op': 'flags', 'chain': 2}, {'op': 'flags', 'chain': 3},
+                    {'op': 'has_data', 'chain': 3, 'pick': 1}, {'op': 'restart'}, {'op': 'multi', 'bases': bases},
+                    {'op': 'has_data', 'chain': 1, 'pick': 1}, {'op': 'value', 'chain': 2, 'pick': 1},
+                    {'op': 'force_multi', 'multi': 0, 'picks': [0], 'recompute': True, 'delete': True},
+                    {'op': 'value', 'chain': 2, 'pick': 1}]
+        return [c, d]
 
     def oracle(self, case, obs):
         m = multi_oracle(case, obs)
         return m or history_oracle(case, obs, self.checks)
 
 
+class ObjectUses(Suite):
+    """configs that mount one pipeline Config OBJECT (`uses: [config]`, the form used in tests) and differ in their
+    context: every chain of the MultiChain against the standalone chain of a fresh copy of the same config.
+    Runtime check only - Config objects inside `uses` are mutated in place by construction and are not modelled."""
+    name = 'config_objects_in_uses'
+    model = ''
+
+    def gen(self, rng, tier):
+        out = []
+        for xs in ([1, 2], [2, 1], [5, 5], [0, 1, 2], [3, 3, 4]):
+            for order in ('multi_first', 'alone_first'):
+                out.append(dict(xs=xs, ns=None, via_context=True, order=order))
+        return out
+
+    def run_impl(self, case):
+        from taskchain import Config, MultiChain
+        from .. import pipeline as pl
+        classes = [dict(K(0, 'Src', params=[P('x')]), name='src'), dict(K(1, 'Dst', meta_inputs=[{'cls': 0}]), name='dst')]
+        with pl.workspace(dict(classes=classes, files={})) as (d, mod):
+            def configs(shared):
+                common = None
+                out = []
+                for i, x in enumerate(case['xs']):
+                    if common is None or not shared:
+                        common = Config(Path('data'), name='common', data={'tasks': [f'{mod}.Src'], 'x': 0},
+                                        namespace=case['ns'])
+                    data = {'tasks': [f'{mod}.Dst'], 'uses': [common]}
+                    kw = {}
+                    if case['via_context']:
+                        kw['context'] = {'x': x}
+                    else:
+                        kw['context'] = {'for_namespaces': {case['ns']: {'x': x}}} if case['ns'] else {'x': x}
+                    out.append(Config(Path('data'), name=f'c{i}', data=data, **kw))
+                return out
+            res = {}
+            mc = MultiChain(configs(shared=True))
+            res['multi'] = {n: pl.observe_chain(ch, with_paths=True) for n, ch in mc.chains.items()}
+            res['multi_values'] = {n: {t: ch.tasks[t].value for t in ch.tasks} for n, ch in mc.chains.items()}
+            res['alone'], res['alone_values'] = {}, {}
+            for cfg in configs(shared=False):
+                ch = cfg.chain()
+                res['alone'][cfg.name] = pl.observe_chain(ch, with_paths=True)
+                res['alone_values'][cfg.name] = {t: ch.tasks[t].value for t in ch.tasks}
+            return res
+
+    def oracle(self, case, obs):
+        if 'unexpected_exception' in obs:
+            return f'unexpected exception {obs["unexpected_exception"]}: {obs["text"]}'
+        for n, alone in obs['alone'].items():
+            m = obs['multi'].get(n)
+            if m is None or sorted(m['tasks']) != sorted(alone['tasks']):
+                return f'{case}: chain {n} of the MultiChain has tasks {sorted((m or {}).get("tasks", {}))}, standalone {sorted(alone["tasks"])}'
+            for t, o in alone['tasks'].items():
+                if m['tasks'][t]['key'] != o['key'] or m['tasks'][t].get('path') != o.get('path'):
+                    return (f'{case}: task {t} of chain {n} is stored at {m["tasks"][t].get("path")} in the MultiChain and at '
+                            f'{o.get("path")} in the standalone chain of the same config')
+                if json.dumps(obs['multi_values'][n][t], sort_keys=True) != json.dumps(obs['alone_values'][n][t], sort_keys=True):
+                    return f'{case}: task {t} of chain {n} yields {obs["multi_values"][n][t]} in the MultiChain, {obs["alone_values"][n][t]} standalone'
+        return None
+
+    def nontrivial(self, case, obs):
+        return len(set(case['xs'])) > 1
+
+    def key(self, case):
+        return repr(case)
+
+
 class C13(Prop):
     pid = 'C13'
-    suites = [Multi()]
+    suites = [Multi(), ObjectUses()]
     assumptions = ['config names within one MultiChain are distinct (the constructor asserts it)']
 
 
